@@ -2,7 +2,9 @@ package c09
 
 import (
 	"fmt"
+	"math"
 	"runtime/debug"
+	gotime "time"
 
 	"github.com/yorkie-team/yorkie/pkg/document"
 	"github.com/yorkie-team/yorkie/pkg/document/crdt"
@@ -17,8 +19,109 @@ import (
 // tickets, insPrev/insNext links) and a paragraph merge (mergedFrom/mergedAt).
 var treeExtraOps = []string{"trsplit", "trmerge"}
 
+// primOps: every primitive kind with ordinary and boundary values, as object
+// member and as array element (each kind has its own wire form).
+var primOps = []string{"oprim", "oprim"}
+
+func applyPrim(d *document.Document, s prog.Step) (desc string, err error) {
+	defer func() {
+		if r := recover(); r != nil {
+			err = fmt.Errorf("PANIC in %s: %v\n%s", desc, r, debug.Stack())
+		}
+	}()
+	dates := []gotime.Time{
+		gotime.Date(2024, 2, 29, 12, 0, 0, 0, gotime.UTC),
+		gotime.Date(1969, 7, 20, 20, 17, 40, 0, gotime.UTC),
+		gotime.Date(1066, 10, 14, 9, 0, 0, 0, gotime.UTC),
+		gotime.Date(2300, 1, 1, 0, 0, 0, 0, gotime.UTC),
+		gotime.Date(9999, 12, 31, 23, 59, 59, 0, gotime.UTC),
+		gotime.UnixMilli(0).UTC(),
+		gotime.Date(1, 1, 1, 0, 0, 0, 0, gotime.UTC),
+	}
+	kind, v := s.A%8, s.B*9+s.C
+	err = d.Update(func(r *json.Object, _ *presence.Presence) error {
+		key := []string{"pv", "pw"}[s.C%2]
+		arr := r.GetArray("a")
+		inArray := s.C%3 == 0 && arr != nil
+		switch kind {
+		case 0:
+			if inArray {
+				arr.AddNull()
+			} else {
+				r.SetNull(key)
+			}
+			desc = "null"
+		case 1:
+			if inArray {
+				arr.AddBool(v%2 == 0)
+			} else {
+				r.SetBool(key, v%2 == 0)
+			}
+			desc = fmt.Sprintf("bool %v", v%2 == 0)
+		case 2:
+			x := []int{0, -1, 7, math.MaxInt32, math.MinInt32}[v%5]
+			if inArray {
+				arr.AddInteger(x)
+			} else {
+				r.SetInteger(key, x)
+			}
+			desc = fmt.Sprintf("integer %d", x)
+		case 3:
+			x := []int64{0, -1, 1 << 40, math.MaxInt64, math.MinInt64, 1<<53 + 1}[v%6]
+			if inArray {
+				arr.AddLong(x)
+			} else {
+				r.SetLong(key, x)
+			}
+			desc = fmt.Sprintf("long %d", x)
+		case 4:
+			x := []float64{0, -0.5, 1e308, 5e-324, -1e-9, 3.141592653589793}[v%6]
+			if inArray {
+				arr.AddDouble(x)
+			} else {
+				r.SetDouble(key, x)
+			}
+			desc = fmt.Sprintf("double %v", x)
+		case 5:
+			x := []string{"", "plain", "한글 😀 \u0000 \"q\"", "line\nbreak\ttab", string([]rune{0xFFFD, 0x10FFFF})}[v%5]
+			if inArray {
+				arr.AddString(x)
+			} else {
+				r.SetString(key, x)
+			}
+			desc = fmt.Sprintf("string %q", x)
+		case 6:
+			x := [][]byte{{}, {0}, {0xff, 0xfe, 0x00, 0x80}, []byte("bytes")}[v%4]
+			if inArray {
+				arr.AddBytes(x)
+			} else {
+				r.SetBytes(key, x)
+			}
+			desc = fmt.Sprintf("bytes %x", x)
+		case 7:
+			x := dates[v%len(dates)]
+			if inArray {
+				arr.AddDate(x)
+			} else {
+				r.SetDate(key, x)
+			}
+			desc = "date " + x.Format(gotime.RFC3339)
+		}
+		if inArray {
+			desc = "a.add " + desc
+		} else {
+			desc = "root." + key + " = " + desc
+		}
+		return nil
+	})
+	return desc, err
+}
+
 // applyEdit executes one edit step (shared alphabet + the two local ops).
 func applyEdit(d *document.Document, s prog.Step) (desc string, err error) {
+	if s.Op == "oprim" {
+		return applyPrim(d, s)
+	}
 	if s.Op != "trsplit" && s.Op != "trmerge" {
 		return prog.ApplyEdit(d, s)
 	}
